@@ -8075,9 +8075,7 @@ fn compare_wire_values(a: Option<&WireValue>, b: Option<&WireValue>) -> std::cmp
         (Some(va), Some(vb)) => match (va, vb) {
             (WireValue::Int64(a), WireValue::Int64(b)) => a.cmp(b),
             (WireValue::Int32(a), WireValue::Int32(b)) => a.cmp(b),
-            (WireValue::Float64(a), WireValue::Float64(b)) => {
-                a.partial_cmp(b).unwrap_or(std::cmp::Ordering::Equal)
-            }
+            (WireValue::Float64(a), WireValue::Float64(b)) => compare_f64_total(*a, *b),
             (WireValue::String(a), WireValue::String(b)) => a.cmp(b),
             (WireValue::Bool(a), WireValue::Bool(b)) => a.cmp(b),
             (WireValue::Timestamp(a), WireValue::Timestamp(b)) => a.cmp(b),
@@ -8085,15 +8083,23 @@ fn compare_wire_values(a: Option<&WireValue>, b: Option<&WireValue>) -> std::cmp
             (WireValue::Null, _) => std::cmp::Ordering::Less,
             (_, WireValue::Null) => std::cmp::Ordering::Greater,
             // Cross-type numeric comparison
-            (WireValue::Int64(a), WireValue::Float64(b)) => (*a as f64)
-                .partial_cmp(b)
-                .unwrap_or(std::cmp::Ordering::Equal),
-            (WireValue::Float64(a), WireValue::Int64(b)) => a
-                .partial_cmp(&(*b as f64))
-                .unwrap_or(std::cmp::Ordering::Equal),
+            (WireValue::Int64(a), WireValue::Float64(b)) => compare_f64_total(*a as f64, *b),
+            (WireValue::Float64(a), WireValue::Int64(b)) => compare_f64_total(*a, *b as f64),
             // Cross-type: use type discriminant for stable ordering
             _ => wire_value_type_rank(va).cmp(&wire_value_type_rank(vb)),
         },
+    }
+}
+
+/// Numeric comparison that is a total order: NaN compares equal to NaN and greater than
+/// every number. Treating NaN as "equal to everything" is not transitive, which makes
+/// `sort_by` panic ("does not correctly implement a total order") or misplace rows.
+fn compare_f64_total(a: f64, b: f64) -> std::cmp::Ordering {
+    match (a.is_nan(), b.is_nan()) {
+        (true, true) => std::cmp::Ordering::Equal,
+        (true, false) => std::cmp::Ordering::Greater,
+        (false, true) => std::cmp::Ordering::Less,
+        (false, false) => a.partial_cmp(&b).unwrap_or(std::cmp::Ordering::Equal),
     }
 }
 
